@@ -1480,7 +1480,7 @@ impl Typer {
         for param in params.iter() {
             let name_str = self.hir_table.local_ident_name(param.name);
             let param_ty = match &param.ty {
-                Some(ty) => tast::Ty::from_hir(genv, ty, &current_tparams_env),
+                Some(ty) => annotation_ty(genv, diagnostics, ty, &current_tparams_env),
                 None => self.fresh_ty_var(),
             };
             local_env.insert_var(param.name, param_ty.clone());
@@ -1534,7 +1534,7 @@ impl Typer {
                     let annotated_ty = param
                         .ty
                         .as_ref()
-                        .map(|ty| tast::Ty::from_hir(genv, ty, &current_tparams_env));
+                        .map(|ty| annotation_ty(genv, diagnostics, ty, &current_tparams_env));
 
                     let param_ty = match annotated_ty {
                         Some(ann_ty) => {
@@ -1589,7 +1589,7 @@ impl Typer {
         let current_tparams_env = local_env.current_tparams_env();
         let annotated_ty = annotation
             .as_ref()
-            .map(|ty| tast::Ty::from_hir(genv, ty, &current_tparams_env));
+            .map(|ty| annotation_ty(genv, diagnostics, ty, &current_tparams_env));
 
         let (value_tast, value_ty) = if let Some(ann_ty) = &annotated_ty {
             (
@@ -1675,7 +1675,7 @@ impl Typer {
         let current_tparams_env = local_env.current_tparams_env();
         let annotated_ty = annotation
             .as_ref()
-            .map(|ty| tast::Ty::from_hir(genv, ty, &current_tparams_env));
+            .map(|ty| annotation_ty(genv, diagnostics, ty, &current_tparams_env));
 
         let (value_tast, value_ty) = if let Some(ann_ty) = &annotated_ty {
             (
@@ -3459,4 +3459,19 @@ fn is_inlined_builtin(name: &str) -> bool {
             | "vec_get"
             | "vec_len"
     )
+}
+
+/// The type written in a `let` or closure-parameter annotation. Like the types of a signature
+/// it has to be well-formed: known constructors with the right number of arguments, known
+/// type parameters, known traits after `dyn`.
+fn annotation_ty(
+    genv: &PackageTypeEnv,
+    diagnostics: &mut Diagnostics,
+    ty: &hir::TypeExpr,
+    tparams: &[tast::TastIdent],
+) -> tast::Ty {
+    let ty = tast::Ty::from_hir(genv, ty, tparams);
+    let tparam_names = tparams.iter().map(|t| t.0.clone()).collect();
+    super::util::validate_ty(genv, diagnostics, &ty, &tparam_names);
+    ty
 }
